@@ -1,6 +1,7 @@
 package main
 
 import (
+	"go/token"
 	"strings"
 
 	"golang.org/x/tools/go/ssa"
@@ -36,7 +37,18 @@ func checkC19(e *Engine, r *Report) {
 			}
 			a := c.Call.Args
 			k, h, s := sliceFrom(a[0]), sliceFrom(a[1]), sliceFrom(a[2])
-			okE = hasFieldLoad(k, "PubKey", "Key") && h.HasCall(CallSpec{pkgGethCry, "", "Keccak256Hash"}) && h.HasValue(ec.Params[1]) && !h.HasValue(ec.Params[2]) && s.HasValue(ec.Params[2]) && !s.HasValue(ec.Params[1])
+			okE = hasFieldLoad(k, "PubKey", "Key") && (h.HasCall(CallSpec{pkgGethCry, "", "Keccak256Hash"}) || h.HasCall(CallSpec{pkgGethCry, "", "Keccak256"})) && h.HasValue(ec.Params[1]) && !h.HasValue(ec.Params[2]) && s.HasValue(ec.Params[2]) && !s.HasValue(ec.Params[1])
+			// the message reaches the digest ONLY through the hash: no alternative (φ edge, branch) hands the caller's bytes to
+			// the verifier as a ready-made digest
+			if okE && reachesWithout(a[1], ec.Params[1], func(v ssa.Value) bool {
+				c, ok := v.(*ssa.Call)
+				return ok && (isCallTo(c, CallSpec{pkgGethCry, "", "Keccak256Hash"}) || isCallTo(c, CallSpec{pkgGethCry, "", "Keccak256"}))
+			}) {
+				okE = false
+			}
+			if !okE {
+				break
+			}
 		}
 		r.Check(okE, "crypto/ethsecp256k1.PubKey.verifySignatureECDSA › crypto.VerifySignature(Key, Keccak256(msg), sig)", e.Pos(ec.Pos()), "single accepting path through go-ethereum's verifier over the Keccak-256 of the message", "a signature can be accepted without go-ethereum's verifier checking it against this key and the hash of this message")
 		// VerifySignature = ECDSA(msg) || EIP712(msg): every true origin is a result of one of the two helpers on (msg, sig)
@@ -284,4 +296,45 @@ func checkC19(e *Engine, r *Report) {
 		}
 		r.Check(ok, "crypto/hd.ethSecp256k1Algo.Derive › BIP-32 walk of the whole path", e.Pos(df.Pos()), "master := NewMaster(seed(mnemonic)); for n in ParseDerivationPath(path) { key = key.Derive(n) }", "the derivation does not apply hdkeychain.Derive to every path component starting from the mnemonic's master key")
 	})
+}
+
+// reachesWithout: walking the operands backwards from v (through φ-nodes, calls, conversions, slices, single-store spills),
+// can `target` be reached without passing a value accepted by barrier?
+func reachesWithout(v, target ssa.Value, barrier func(ssa.Value) bool) bool {
+	seen := map[ssa.Value]bool{}
+	var walk func(x ssa.Value) bool
+	walk = func(x ssa.Value) bool {
+		if x == nil || seen[x] {
+			return false
+		}
+		seen[x] = true
+		if x == target {
+			return true
+		}
+		if barrier(x) {
+			return false
+		}
+		if u, ok := x.(*ssa.UnOp); ok && u.Op == token.MUL {
+			if a, isA := u.X.(*ssa.Alloc); isA {
+				for _, st := range storesTo(a) {
+					if walk(st.Val) {
+						return true
+					}
+				}
+				return false
+			}
+		}
+		in, ok := x.(ssa.Instruction)
+		if !ok {
+			return false
+		}
+		var rands [16]*ssa.Value
+		for _, op := range in.Operands(rands[:0]) {
+			if *op != nil && walk(*op) {
+				return true
+			}
+		}
+		return false
+	}
+	return walk(v)
 }
